@@ -60,14 +60,16 @@ func racePost(prop string) func(o *sim.Outcome) {
 					continue
 				}
 				const pkg = "github.com/theparanoids/ysshra/"
-				// the accessing function is the innermost frame that is not the runtime: it must belong to the
-				// code under test on both sides (frames of the harness itself, e.g. recording code, do not count)
+				// both accesses must come from the code under test (accesses made by the harness itself, e.g.
+				// recording code, do not count)
+				// the accessing code = the innermost frame that belongs either to the code under test or to the
+				// harness (frames of the runtime, the standard library and third-party modules in between - a map
+				// access, sort.Slice, the agent client - are attributed to their caller)
 				inner := func(a string) string {
 					for _, m := range frameRe.FindAllStringSubmatch(a, -1) {
-						if strings.HasPrefix(m[1], "runtime.") || strings.HasPrefix(m[1], "internal/") {
-							continue
+						if strings.Contains(m[1], pkg) || strings.HasPrefix(m[1], "verifsim/") {
+							return m[1]
 						}
-						return m[1]
 					}
 					return ""
 				}
